@@ -372,6 +372,16 @@ func checkOnce(name string, ptr any, quiet bool) {
 		if r := nilp.MethodByName("DeepCopy").Call(nil)[0]; !r.IsNil() {
 			fmt.Println("V", name, "NIL-NOT-NIL")
 		}
+		// types carrying the interfaces tag also have DeepCopyObject: of nil it is a nil interface value, not an interface
+		// holding a nil pointer
+		if m := nilp.MethodByName("DeepCopyObject"); m.IsValid() {
+			if r := m.Call(nil)[0]; !r.IsNil() {
+				fmt.Println("V", name, "NIL-OBJECT-NOT-NIL")
+			}
+			if r := orig.MethodByName("DeepCopyObject").Call(nil)[0]; r.IsNil() || !reflect.DeepEqual(r.Elem().Interface(), orig.Interface()) {
+				fmt.Println("V", name, "OBJECT-NOT-EQUAL")
+			}
+		}
 		z := reflect.New(t)
 		zc := z.MethodByName("DeepCopy").Call(nil)[0]
 		if !reflect.DeepEqual(zc.Interface(), z.Interface()) {
@@ -821,7 +831,7 @@ func init() {
 			Name: "graphs", Quick: 500, Thorough: 4000, New: func() Case { return &dcopyCase{} },
 			Gen:      func(r *Rng, i int) Case { return genDcopy(r) },
 			BatchRun: dcopyBatch, ShrinkBudget: 25, MaxShrinks: 6,
-			Rule: "packages of 2–7 declarations: structs with int, blank (`_ int`), []int, map[string]int, error, any, unnamed-interface, same-package named (struct / defined map / defined scalar / defined interface) and instantiated-generic fields, generic structs with bare type-parameter fields, defined maps and scalars, tagged and untagged dependencies, the gengo:deepcopy:interfaces tag; the real generator run twice (100 packages per Execute), the Go compiler after each run, and one probe program per batch that fills every enabled type twice — with allocated but empty containers, then with non-empty ones — at every depth, calls the generated DeepCopy, requires reflect.DeepEqual, mutates every slice and map reachable in the copy and compares the original with an identically filled twin; compared with the model: emitted methods in order, statement form per field, compiles or not, on both runs; oracle: compiles on both runs, identical output, nil receiver gives nil, equal, nothing shared",
+			Rule: "packages of 2–7 declarations: structs with int, blank (`_ int`), []int, map[string]int, error, any, unnamed-interface, same-package named (struct / defined map / defined scalar / defined interface) and instantiated-generic fields, generic structs with bare type-parameter fields, defined maps and scalars, tagged and untagged dependencies, the gengo:deepcopy:interfaces tag; the real generator run twice (100 packages per Execute), the Go compiler after each run, and one probe program per batch that fills every enabled type twice — with allocated but empty containers, then with non-empty ones — at every depth, calls the generated DeepCopy, requires reflect.DeepEqual (also of DeepCopyObject where the interfaces tag gives one, whose result for a nil receiver must be a nil interface value), mutates every slice and map reachable in the copy and compares the original with an identically filled twin; compared with the model: emitted methods in order, statement form per field, compiles or not, on both runs; oracle: compiles on both runs, identical output, nil receiver gives nil, equal, nothing shared",
 		},
 	}})
 }
